@@ -485,6 +485,47 @@ def case_decode(op, data, ver=0, orc=None, depth=DEPTH):
     return [op] + lp(data)
 
 
+def case_wf(api, r, ver=0):
+    """case line of the runner ops 201..213: Coq's wf_ predicate and  trace(decode(enc r)) = trace(view r)  on r"""
+    c = case_spec(api, r, ver)
+    return [c[0] + 100] + c[1:]
+
+
+def impl_tstypes(data):
+    """Message.timestamp_type of every message _decode_message_set_iter yields (runner op 16)"""
+    from afkak.kafkacodec import KafkaCodec as K
+    out, outcome = [], 0
+    with CL.Recorder() as rec:
+        try:
+            for om in K._decode_message_set_iter(bytes(data)):
+                out.append(iv(om.message.timestamp_type))
+        except Exception as e:  # noqa
+            outcome = CL.exc_code(e)
+        orc = rec.oracle()
+    return [len(out)] + out + [outcome], orc
+
+
+def impl_fetch_late(data, ver):
+    """the same trace as impl_decode(4, ..) but consuming differently: the outer generator is exhausted FIRST, the
+    .messages iterators are drained afterwards in REVERSE partition order"""
+    from afkak.kafkacodec import KafkaCodec as K
+    try:
+        items = list(K.decode_fetch_response(bytes(data), ver))
+    except Exception as e:  # noqa
+        return None
+    msgs = {}
+    for i in reversed(range(len(items))):
+        msgs[i] = drain_messages(items[i].messages)
+    out = []
+    for i, x in enumerate(items):
+        out += ty(x, "FetchResponse") + tb(x.topic) + [iv(x.partition), iv(x.error), iv(x.highwaterMark)] + msgs[i]
+    return [len(items)] + out + [0]
+
+
+def hexcap(data, cap=20000):
+    return data.hex() if len(data) <= cap else data[:cap].hex() + "..."
+
+
 API_OP = {"corr": 1, "apiversions": 2, "produce": 3, "fetch": 4, "offsets": 5, "metadata": 6, "coordinator": 7, "commit": 8,
           "ofetch": 9, "subscription": 10, "join": 11, "leave": 12, "heartbeat": 13, "sync": 14, "assignment": 15}
 GENS = {"produce": g_produce, "fetch": g_fetch, "offsets": g_offsets, "metadata": g_metadata, "commit": g_commit, "ofetch": g_ofetch,
@@ -648,6 +689,7 @@ def describe(c):
 
 def run(ck):
     vlib.import_repo()
+    del ORACLE_AUDIT[:]
     ck.build([MODEL, CL.MODEL])
     ck.props()
     rnd = random.Random(ck.seed)
@@ -658,20 +700,31 @@ def run(ck):
 
     # ================= 1. well-formed responses of every API/version
     spec_cases, spec_impl = [], []            # grammar encoder: Python vs Coq
+    wf_cases = []                             # Coq wf_ / view_ evaluated on the generated responses: must answer 1 1
+    ts_cases, ts_impl = [], []                # Message.timestamp_type of decoded messages vs Model.RespView.py_decoded
     dec_cases, dec_impl, dec_meta = [], [], []
     notes = []
 
     def add(api, r, ver=0, data=None, want=None, orc_hint=None, label=None, monitor=True):
         data = spec_bytes(api, r, ver) if data is None else data
         op = API_OP[api]
+        del TSTYPES[:]
         tr, orc = impl_decode(op, data, ver)
+        for mg, att, tt in TSTYPES:
+            ck.hist("decoded_attr_bit3_set" if (att >> 3) & 1 else "decoded_attr_bit3_clear")
+            if tt != 0 or type(tt) is not int:
+                ck.violation({"kind": "decoded Message.timestamp_type is not the documented 0 (common.py:650)", "magic": mg, "attributes": att,
+                              "timestamp_type": repr(tt), "api": api, "api_version": ver, "op": op, "data_hex": hexcap(data),
+                              "replay_op": "tstype"})
+                break
         dec_cases.append(case_decode(op, data, ver, orc))
         dec_impl.append(tr)
         dec_meta.append((api, ver, data, want, label or api))
         ck.hist("decode_" + (label or api) + ("_v%d" % ver if api in VERSIONS else ""))
         if monitor and want is not None and tr != want:
             ck.violation({"kind": "decoding does not yield the encoded values", "api": api, "api_version": ver, "op": op,
-                          "abstract_response": r, "data_hex": data.hex(), "expected_trace": want, "implementation_trace": tr,
+                          "abstract_response": r if len(data) < 20000 else "(large)", "data_hex": hexcap(data),
+                          "expected_trace": want[:4000], "implementation_trace": tr[:4000],
                           "first_difference": first_diff(want, tr), "replay_op": "decode"})
         return tr
 
@@ -685,6 +738,7 @@ def run(ck):
                 data = spec_bytes(api, r, layout)
                 spec_cases.append(case_spec(api, r, layout))
                 spec_impl.append([0] + lp(data))
+                wf_cases.append(case_wf(api, r, ver))
                 add(api, r, ver, data, expected(api, r, ver, empty_msgs))
                 if i % 5 == 0 and api not in ("subscription", "assignment"):
                     add("corr", r[0], 0, data, expected("corr", r[0]))
@@ -745,6 +799,11 @@ def run(ck):
         data = KS.enc_kforest(trees, table=table)
         tree_cases.append([114] + oracle_ints([(2, a, 0, z) for a, z in table]) + case_forest(trees))
         tree_impl.append([0] + lp(data))
+        if all(-2 ** 63 <= o < 2 ** 63 for o, _ in KS.log_of_forest(trees)) or True:
+            wf_cases.append([214, DEPTH] + oracle_ints([(2, a, 0, z) for a, z in table] + [(1, z, 0, a) for a, z in table]) + case_forest(trees))
+        ttr, torc = impl_tstypes(data)
+        ts_cases.append([16, DEPTH] + list(torc) + lp(data))
+        ts_impl.append(ttr)
         ver = rnd.choice([0, 2])
         r = fetch_with([data], ver)
         want_log = expected_log(trees)
@@ -796,6 +855,76 @@ def run(ck):
         it = iter(wants)
         add("fetch", r, 0, None, expected("fetch", r, 0, lambda rec: next(it)), label="fetch_multi_partition")
 
+    # ================= 2a'. KIP-31 from the broker's side: a dense format-1 batch written at `base`, then compacted
+    # (a random subset of the inner messages removed, the first one included; survivors keep their relative offsets,
+    # the wrapper carries the absolute offset of the last survivor).  The expectation is the list of ABSOLUTE offsets
+    # the generator chose - no offset formula on the expectation side.
+    batch_cases, batch_impl = [], []
+    for i in range(40 * scale):
+        mgc = 1 if i % 4 else 0
+        base = rnd.choice([0, 1, 100, 2 ** 40, rnd.getrandbits(30), I64[1] - 20])
+        n = rnd.randint(1, 8)
+        dense = [(base + j, g_kmsg(g, mgc)) for j in range(n)]
+        keep = [x for x in dense if rnd.random() < 0.6] if i % 3 else dense
+        if not keep:
+            keep = [rnd.choice(dense)]
+        attr, wts, wkey = 1 | rnd.choice([0, 0, 8]), rnd.choice([0, 5, 1500000000000]), rnd.choice([None, None, b"wk"])
+        batch = KS.broker_batch_v1(base, attr, wts, wkey, keep) if mgc == 1 else KS.broker_batch_v0(attr, wts, wkey, keep)
+        before = [("leaf", base - 1, g_kmsg(g, mgc))] if base > 0 and rnd.random() < 0.5 else []
+        after = [("leaf", keep[-1][0] + 1, g_kmsg(g, mgc))] if rnd.random() < 0.5 and keep[-1][0] < I64[1] else []
+        trees = before + [batch] + after
+        abs_log = [(t[1], t[2]) for t in before] + keep + [(t[1], t[2]) for t in after]
+        table = []
+        data = KS.enc_kforest(trees, table=table)
+        if mgc == 1:      # the Coq transcription of the broker-side definition emits the same bytes
+            batch_cases.append([215, base, attr, wts] + olp(wkey) + [len(keep)]
+                               + sum(([a, m[0], m[1], m[2]] + olp(m[3]) + olp(m[4]) for a, m in keep), [])
+                               + oracle_ints([(2, a, 0, z) for a, z in table]))
+            batch_impl.append([0] + lp(KS.enc_ktree(batch)))
+        want_log = [len(abs_log)] + sum(([o] + kmsg_ints(m) for o, m in abs_log), []) + [0]
+        if KS.log_of_forest(trees) != abs_log:
+            ck.violation({"kind": "harness/kafkaspec_resp.py: log_of disagrees with the broker-side definition of a compacted batch",
+                          "trees": repr(trees)[:2000], "absolute_log": repr(abs_log)[:2000]}, no_input=True)
+        ver = rnd.choice([0, 2])
+        r = fetch_with([data], ver)
+        add("fetch", r, ver, None, expected("fetch", r, ver, lambda rec: want_log),
+            label="fetch_batch_magic%d_%s" % (mgc, "compacted" if len(keep) < n else "dense"))
+        ck.hist("batch_first_removed" if keep[0][0] != base else "batch_first_kept")
+    # an EMPTY wrapper of either format between two plain messages (nothing from it, no exception)
+    for mg in (0, 1):
+        trees = [("leaf", 5, (mg, 0, 1, None, b"a")), ("wrap", 7, mg, 1, 0, None, []), ("leaf", 8, (mg, 0, 2, b"k", None))]
+        r = fetch_with([KS.enc_kforest(trees)], 0)
+        want_log = expected_log(trees)
+        add("fetch", r, 0, None, expected("fetch", r, 0, lambda rec: want_log), label="fetch_empty_wrapper_magic%d" % mg)
+    # LARGE sets: values of 32767 / 32768 / 65536 bytes; a gzip wrapper whose inner set is > 64 KiB and compresses to
+    # > 16 KiB (random values) - a codec that stops after one buffer delivers fewer messages than the generator stored
+    for mg in (0, 1):
+        big = [("leaf", 10 + j, (mg, 0, 7, b"k", CL.rbytes(rnd, size))) for j, size in enumerate((32767, 32768, 65536))]
+        r = fetch_with([KS.enc_kforest(big)], 2)
+        want_log = expected_log(big)
+        add("fetch", r, 2, None, expected("fetch", r, 2, lambda rec: want_log), label="fetch_big_values_magic%d" % mg)
+        nmsg, vsize = (80, 1024) if not thorough else (1024, 1024)
+        kids = [("leaf", j if mg == 1 else 1000 + j, (mg, 0, j, None, CL.rbytes(rnd, vsize))) for j in range(nmsg)]
+        trees = [("wrap", 1000 + nmsg - 1, mg, 1, 0, None, kids), ("leaf", 1000 + nmsg, (mg, 0, 0, None, b"after-the-big-batch"))]
+        table = []
+        data = KS.enc_kforest(trees, table=table)
+        ck.cov.setdefault("large_sets", []).append({"magic": mg, "inner_bytes": len(table[0][0]), "compressed_bytes": len(table[0][1]), "messages": nmsg})
+        r = fetch_with([data], 2)
+        abs_log = [(1000 + j, k[2]) for j, k in enumerate(kids)] + [(1000 + nmsg, trees[1][2])]
+        want_log = [len(abs_log)] + sum(([o] + kmsg_ints(m) for o, m in abs_log), []) + [0]
+        add("fetch", r, 2, None, expected("fetch", r, 2, lambda rec: want_log), label="fetch_large_gzip_batch_magic%d" % mg)
+    # the same responses consumed differently: outer generator exhausted first, .messages drained later in reverse order
+    late = 0
+    for i, (api, ver, data, want, label) in enumerate(dec_meta):
+        if api == "fetch" and want is not None and len(data) < 200000 and (label.startswith("fetch_multi") or i % 7 == 0):
+            tr2 = impl_fetch_late(data, ver)
+            late += 1
+            if tr2 is not None and tr2 != dec_impl[i]:
+                ck.violation({"kind": "FetchResponse.messages yields different messages when consumed after the outer generator is exhausted",
+                              "api": "fetch", "api_version": ver, "op": 4, "data_hex": hexcap(data), "expected_trace": dec_impl[i][:4000],
+                              "late_trace": tr2[:4000], "first_difference": first_diff(dec_impl[i], tr2), "replay_op": "decode"})
+    ck.cov["late_consumption_cases"] = late
+
     # ================= 2b. afkak's own ENCODER steps vs Model.MsgSet (runner `codec`): ties the encoder model the
     # theorems C05_afkak_* speak about (_encode_message_set, create_gzip_message) to the real functions
     enc_cases, enc_impl = [], []
@@ -836,13 +965,20 @@ def run(ck):
     for i in range(40 * scale):
         x = rnd.choice([b"", b"\x00", bytes(rnd.randint(1, 2000)), CL.rbytes(rnd, rnd.randint(1, 400)),
                         CL.rbytes(rnd, rnd.randint(1, 20)) * rnd.randint(1, 50)])
+        if i < 6:      # sizes beyond every internal buffer: 16 KiB +- 1, 64 KiB, 1 MiB, incompressible and compressible
+            x = [CL.rbytes(rnd, 16383), CL.rbytes(rnd, 16385), CL.rbytes(rnd, 65536), CL.rbytes(rnd, 1 << 20),
+                 bytes(1 << 20), CL.rbytes(rnd, 100) * 700][i]
         z = real_gzip_encode(x)
         ok = isinstance(z, bytes) and real_gzip_decode(z) == x and real_gzip_decode(KS.gzip_compress(x)) == x
         law += 1
         if not ok:
             ck.violation({"kind": "compression round-trip law (hypothesis of C05_msgset_roundtrip / C05_afkak_gzip_roundtrip) fails on the real gzip codec",
-                          "input_hex": x.hex()[:2000], "replay_op": "gzip_law"})
-    ck.cov["oracle_law_observed"] = {"gzip_roundtrips": law, "snappy_available": bool(has_snappy())}
+                          "input_hex": x.hex() if len(x) <= 20000 else "", "input_len": len(x), "replay_op": "gzip_law"})
+    for a in ORACLE_AUDIT[:3]:
+        ck.violation(dict(a, kind="a codec answer recorded from the real code (and handed to the model as its oracle) is not what Python's gzip module computes",
+                          replay_op="none"))
+    ck.cov["oracle_law_observed"] = {"gzip_roundtrips": law, "largest_input": 1 << 20, "recorded_answers_refuted_by_stdlib": len(ORACLE_AUDIT),
+                                     "snappy_available": bool(has_snappy())}
     ck.hist("gzip_law", law)
 
     # ================= 3. hostile stream: compared with the model only
@@ -887,6 +1023,29 @@ def run(ck):
                       "python": (spec_impl + tree_impl)[i][:200], "coq": mo[i][:200],
                       "theorems_no_longer_tied": ["all C05_* (the encoder the theorems speak about is not the one that produced the test inputs)"]},
                      no_input=True)
+
+    dW, moW = correspond_chunks(ck, MODEL, MODULE, wf_cases, [[1, 1]] * len(wf_cases),
+                                "Coq wf_ predicate holds and trace(decode(enc r)) = trace(view r) on the generated responses / forests (runner ops 201..214)",
+                                nontrivial=lambda c, o: True, describe=describe)
+    for i in dW[:3]:
+        ck.violation({"kind": "a generated response is outside the theorem's wf_ predicate, or the Coq view_ differs from the Coq decoder on it",
+                      "correspondence": "corr:resp:wf_view", "case": wf_cases[i][:300], "answer [wf, same]": moW[i],
+                      "theorems_no_longer_tied": ["the C05 theorem of runner op %d - 200 (the generator does not exercise its hypothesis)" % wf_cases[i][0]]},
+                     no_input=True)
+    dB, moB = ck.correspond(MODEL, MODULE, batch_cases, batch_impl,
+                            "broker-side KIP-31 definition: kafkaspec_resp.broker_batch_v1 vs Model.KafkaSpecResp.broker_batch_v1 (bytes identical)",
+                            nontrivial=lambda c, o: len(o) > 6, describe=describe)
+    for i in dB[:2]:
+        ck.violation({"kind": "the two transcriptions of the broker-side KIP-31 definition disagree", "correspondence": "corr:resp:broker_batch",
+                      "case": batch_cases[i][:300], "python": batch_impl[i][:200], "coq": moB[i][:200],
+                      "theorems_no_longer_tied": ["C05_kip31_batch_recovered"]}, no_input=True)
+    dT, moT = ck.correspond(MODEL, MODULE, ts_cases, ts_impl,
+                            "Message.timestamp_type of decoded messages vs Model.RespView.py_decoded (documented: always 0)",
+                            nontrivial=lambda c, o: len(o) > 2, describe=describe)
+    for i in dT[:2]:
+        ck.violation({"kind": "decoded Message.timestamp_type differs from the model (documented invariant: 0)", "correspondence": "corr:resp:timestamp_type",
+                      "case": ts_cases[i][:300], "implementation_trace": ts_impl[i][:100], "model_trace": moT[i][:100],
+                      "theorems_no_longer_tied": ["C05_timestamp_type_roundtrip"]}, no_input=True)
 
     def nontrivial(c, o):
         return len(o) > 2 and (o[0] > 0)
@@ -974,6 +1133,13 @@ def replay(rp):
         ok = want is not None and tr == want
         print("verdict:", "decodes to the encoded values" if ok else "VIOLATION reproduced" if want is not None else "no expectation recorded")
         return 0 if ok else 1
+    if op == "tstype" and not str(rp.get("data_hex", "")).endswith("..."):
+        del TSTYPES[:]
+        impl_decode(rp["op"], bytes.fromhex(rp["data_hex"]), rp.get("api_version", 0))
+        bad = [t for t in TSTYPES if t[2] != 0]
+        print("decoded (magic, attributes, timestamp_type):", TSTYPES[:20])
+        print("verdict:", "VIOLATION reproduced" if bad else "timestamp_type is the documented 0")
+        return 1 if bad else 0
     if op == "gzip_law":
         from afkak.codec import gzip_decode, gzip_encode
         x = bytes.fromhex(rp["input_hex"])
